@@ -34,7 +34,8 @@ def _dump(g, names):
     from chipfiring.CFGraph import Vertex
     n = len(names); V = [Vertex(x) for x in names]
     adj = [[g.graph[V[a]].get(V[b], 0) for b in range(n)] for a in range(n)]
-    keys_ok = sorted(v.name for v in g.graph) == sorted(names) and sorted(v.name for v in g.vertices) == sorted(names)
+    keys_ok = sorted(v.name for v in g.graph) == sorted(names) and sorted(v.name for v in g.vertices) == sorted(names) \
+        and all(w in g.graph and w != v and k > 0 for v in g.graph for w, k in g.graph[v].items()) and sorted(v.name for v in g.vertex_total_valence) == sorted(names)     # no phantom neighbours, no stored zeros
     return {"adj": adj, "val": [g.get_valence(x) for x in names], "tot": g.total_valence, "genus": g.get_genus(), "keys_ok": keys_ok,
             "types_ok": all(type(x) is int for r in adj for x in r)}
 def impl(c):
